@@ -707,7 +707,9 @@ def exec_op(env, op, th=None):
     if th is not None:
         th.begin_op(op.get('cancel'))
     try:
-        out, ctx = ops.call(thunk, faults, env.norm, env.retained, graph=(kind == 'load'), nested=nested)
+        # (a loaded value belongs to the caller, who changes it in place once it is recorded)
+        out, ctx = ops.call(thunk, faults, env.norm, env.retained, graph=(kind == 'load'), nested=nested,
+                            after=ops.use_result if kind == 'load' else None)
     except seam.SimCancel:
         out = {'status': 'cancelled', 'trace': []}
         ctx = None
